@@ -121,16 +121,64 @@ def run(chk, prog):
     chk.check(str(ini.get("_impedance")) == "impedance", "R3", c8.where, "the field's impedance is the one handed to the constructor", "ctor:_impedance")
     # intensity
     it = [x for x in s.accesses if x.kind == "store" and x.base == "_csrintensity" and x.idx is not None]
-    A.require(len(it) == 2, "updateCSR: intensity reset/accumulation not found")
-    z, acc = (it[0], it[1]) if it[0].op == "=" else (it[1], it[0])
-    chk.check(z.op == "=" and z.value == 0 and acc.op == "+=" and z.idx == acc.idx, "R1", A.loc(fn, {"line": z.line}),
-              "intensity[n] starts at 0 and is accumulated with +=", "updateCSR:intensity-reset")
-    sg = Sg.sign(acc.value, lambda e: (Sg.NNEG if isinstance(e, sp.Indexed) and str(e.base) == "_csrspectrum" else table2(e))) if acc.value is not None else Sg.TOP
-    chk.check(sg in (Sg.NNEG, Sg.POS), "R1", A.loc(fn, {"line": acc.line}), "each term delta_f*spectrum[n][i] added to the intensity is >= 0 (%s: %s)" % (acc.value, sg),
-              "updateCSR:intensity-term:%s" % sg)
-    ix = [x for x in acc.value.atoms(sp.Indexed) if str(x.base) == "_csrspectrum"] if acc.value is not None else []
-    chk.check(len(ix) == 1 and tuple(ix[0].indices) == a.idx, "R1", A.loc(fn, {"line": acc.line}),
-              "the intensity of bunch n sums the spectrum of bunch n over all i", "updateCSR:intensity-index")
+    A.require(len(it) >= 1, "updateCSR: no store to the intensity")
+    spec_sign = lambda e: (Sg.NNEG if isinstance(e, sp.Indexed) and str(e.base) == "_csrspectrum" else table2(e))
+    if len(it) == 2 and {x.op for x in it} == {"=", "+="}:
+        z, acc = (it[0], it[1]) if it[0].op == "=" else (it[1], it[0])
+        chk.check(z.op == "=" and z.value == 0 and acc.op == "+=" and z.idx == acc.idx and len(z.loops) >= 1 and z.loops[0].sym == a.loops[0].sym, "R1", A.loc(fn, {"line": z.line}),
+                  "intensity[n] starts at 0 for every bunch and is accumulated with +=", "updateCSR:intensity-reset")
+        terms = [acc]
+        scale_ = sp.Integer(1)
+    elif len(it) == 1 and it[0].op == "=" and it[0].value is not None and [t for t in it[0].value.atoms(sp.Function) if type(t).__name__ == "SUM"]:
+        # stored once per bunch from a sum the scanner could read as SUM(term, lo, hi): that normal form is only produced when the
+        # accumulator starts afresh in the same iteration of every enclosing loop, i.e. per bunch
+        fin = it[0]
+        sums = [t for t in fin.value.atoms(sp.Function) if type(t).__name__ == "SUM"]
+        chk.check(len(sums) == 1 and fin.idx == (a.loops[0].sym,), "R1", A.loc(fn, {"line": fin.line}), "intensity[n] = (factor) * one sum over the frequencies (%s)" % fin.value,
+                  "updateCSR:intensity-shape:sum")
+        terms = []
+        if len(sums) == 1:
+            sm_ = sums[0]
+            fac_ = sp.simplify(fin.value / sm_)
+            chk.check(not fac_.has(sm_) and Sg.sign(fac_, table2) in (Sg.NNEG, Sg.POS), "R1", A.loc(fn, {"line": fin.line}), "intensity[n] = (non-negative factor) * sum (%s)" % fac_,
+                      "updateCSR:intensity-scale")
+            term_ = sm_.args[0]
+            sg = Sg.sign(term_, spec_sign)
+            chk.check(sg in (Sg.NNEG, Sg.POS), "R1", A.loc(fn, {"line": fin.line}), "each term %s of the sum is >= 0 (%s)" % (term_, sg), "updateCSR:intensity-term:%s" % sg)
+            ix = [x for x in term_.atoms(sp.Indexed) if str(x.base) == "_csrspectrum"]
+            okix = len(ix) == 1 and len(ix[0].indices) == 2 and ix[0].indices[0] == a.loops[0].sym and sm_.args[1] == 0 and E.norm(sm_.args[2]) == E.NMAX
+            chk.check(okix, "R1", A.loc(fn, {"line": fin.line}), "the intensity of bunch n sums the spectrum of bunch n over all i (%s over [%s,%s))" % (ix, sm_.args[1], sm_.args[2]),
+                      "updateCSR:intensity-index")
+        terms = [None]
+    else:
+        # accumulated in a local and stored once per bunch: intensity[n] = factor * local
+        fin = [x for x in it if x.op == "="]
+        locs_ = sorted({str(t) for x in fin for t in (x.value.free_symbols if x.value is not None else []) if any(y.kind == "store" and y.idx is None and y.base == str(t) for y in s.accesses)})
+        ok_shape = len(it) == 1 and len(fin) == 1 and len(locs_) == 1 and fin[0].idx == (a.loops[0].sym,)
+        chk.check(ok_shape, "R1", A.loc(fn, {"line": it[0].line}), "intensity[n] is either accumulated in place or stored once per bunch from one local accumulator (%s)" % [str(x)[:70] for x in it],
+                  "updateCSR:intensity-shape:%s" % sorted(x.op for x in it))
+        terms, scale_ = [], sp.Integer(1)
+        if ok_shape:
+            L_ = locs_[0]
+            ls = [y for y in s.accesses if y.kind == "store" and y.idx is None and y.base == L_]
+            resets = [y for y in ls if y.op == "=" and y.value == 0]
+            terms = [y for y in ls if y.op == "+="]
+            # the accumulator must start at 0 inside the bunch loop, before the terms of that bunch are added
+            per_bunch = [y for y in resets if y.loops and y.loops[0].sym == a.loops[0].sym and all(y.seq < t_.seq for t_ in terms)]
+            chk.check(bool(per_bunch) and len(resets) == len(per_bunch), "R1", A.loc(fn, {"line": (resets[0].line if resets else fin[0].line)}),
+                      "the accumulator %s starts at 0 for every bunch (reset inside the bunch loop, before the sum): the intensity of bunch n holds nothing of bunches < n" % L_,
+                      "updateCSR:intensity-reset")
+            scale_ = sp.simplify(fin[0].value / sp.Symbol(L_, real=True)) if fin[0].value is not None else None
+            chk.check(scale_ is not None and not scale_.has(sp.Symbol(L_, real=True)) and Sg.sign(scale_, table2) in (Sg.NNEG, Sg.POS), "R1", A.loc(fn, {"line": fin[0].line}),
+                      "intensity[n] = (non-negative factor) * accumulator (%s)" % scale_, "updateCSR:intensity-scale")
+    for acc in [t_ for t_ in terms if t_ is not None]:
+        sg = Sg.sign(acc.value, spec_sign) if acc.value is not None else Sg.TOP
+        chk.check(sg in (Sg.NNEG, Sg.POS), "R1", A.loc(fn, {"line": acc.line}), "each term %s added to the intensity is >= 0 (%s)" % (acc.value, sg),
+                  "updateCSR:intensity-term:%s" % sg)
+        ix = [x for x in acc.value.atoms(sp.Indexed) if str(x.base) == "_csrspectrum"] if acc.value is not None else []
+        chk.check(len(ix) == 1 and tuple(ix[0].indices) == a.idx, "R1", A.loc(fn, {"line": acc.line}),
+                  "the intensity of bunch n sums the spectrum of bunch n over all i", "updateCSR:intensity-index")
+    chk.check(len(terms) == 1, "R1", A.loc(fn, {"line": it[0].line}), "the intensity is one sum over the spectrum (%d accumulation statements)" % len(terms), "updateCSR:intensity-terms:%d" % len(terms))
     fL = a.loops[-1]
     chk.check(fL.lo == 0 and E.norm(fL.hi) == E.NMAX, "R1", site, "the spectrum is computed for all _nmax frequencies", "updateCSR:freq-range")
     # frequency axis delta > 0: Ruler(_nmax, 0, 1/delta0)
